@@ -27,7 +27,7 @@ def build_items(tier: str, seed: int, seqs: List[List[int]], skels: List[List[st
     rnd = random.Random(seed)
     quick = tier == "quick"
     corpus = list(sq.dialect_corpus())
-    chosen = sq.stratified(corpus, lambda x: x[1], 420, seed) if quick else corpus
+    chosen = sq.stratified(corpus, lambda x: x[1], 1000, seed) if quick else corpus
     items = [(sq.read(p), d, "jinja", p, f"c{i}", None) for i, (p, d) in enumerate(chosen)]
     items += [(sq.read(p), "ansi", "path", p, f"t{i}", None) for i, p in enumerate(sq.templater_fixtures())]
     for i, rc in enumerate(sq.rule_cases()):
